@@ -252,6 +252,18 @@ fn continue_from(out : &mut Out, disk : &Disk, mode : ClockMode, clock : u64, op
     res
 }
 
+fn f6_history() -> Vec<Op>
+{
+    let w = |p : &str, c : &str| Op::Write(p.to_string(), c.as_bytes().to_vec());
+    let rules = "t1\nt2\n:\na\nb\n:\ngen t1 @a\n;\ngen t2 @b\n:\n\ntop\n:\nt1\nt2\n:\ngen top @t1 =+ @t2\n:\n";
+    let rules_bad = format!("{}\nbad\n:\na\n:\nfail\n:\n", rules);
+    vec![w(RULES_PATH, rules), w("a", "1"), w("b", "2"), Op::Build(None),
+         w("a", "2"), w("b", "1"), Op::Build(None),
+         w("a", "1"), w("b", "2"), w(RULES_PATH, &rules_bad), Op::Build(None),
+         w("a", "2"), w("b", "1"), Op::Clean(Some("t1".to_string())), Op::Build(None),
+         w("a", "1"), w("b", "2"), w(RULES_PATH, rules), Op::Clean(None), Op::Build(None)]
+}
+
 /// C11 x C18: a kill under the COARSE clock (files written by one invocation share a modification time). The prior
 /// history exchanges and restores leaf values (hist::swap_ops), so that files with equal times and different
 /// contents travel through the cache; one of its builds is the victim; from every crash point the rest of the
@@ -262,13 +274,15 @@ pub fn crashes_coarse(ctx : &Ctx, out : &mut Out)
     let mut rng = Rng::new(ctx.seed).fork(1118);
     let n = if ctx.thorough { 400 } else { 40 };
     let mut total = 0usize;
-    for i in 0..n
+    for i in 0..n + 1
     {
         let mut r = rng.fork(i as u64);
-        let ops = crate::suites::hist::swap_ops(&mut r);
+        // the first scenario is the history on which defect F6 was found (fixed): a two-target rule, the two leaves
+        // exchanged and put back, a failing rule added; the third build is the victim
+        let ops = if i == 0 { f6_history() } else { crate::suites::hist::swap_ops(&mut r) };
         let builds : Vec<usize> = ops.iter().enumerate().filter(|(k, o)| *k >= 4 && matches!(o, Op::Build(_))).map(|(k, _)| k).collect();
         if builds.is_empty() { continue; }
-        let k = *r.pick(&builds);
+        let k = if i == 0 { 10 } else { *r.pick(&builds) };
         let (prep, rest) = ops.split_at(k);
         let victim_op = rest[0].clone();
         let cont : Vec<Op> = { let mut c = vec![Op::Build(None)]; c.extend(rest[1..].iter().cloned()); c };
